@@ -36,3 +36,26 @@ Proof.
   - repeat (apply Esc_lit; [discriminate|discriminate|]). apply Esc_nil.
   - repeat split; try reflexivity; cbn; try lia.
 Qed.
+
+(* a second witness exercising every rule of the escape relation: a 2019 FRAGMENTED frame (package 1 of 3) whose serial
+   is 7e 7d (Esc_7e, Esc_7d), whose body is 7e 1a (Esc_7e, Esc_lit) and whose check code 0x7d is sent unescaped right
+   before the closing delimiter (Esc_last, the one tolerated deviation): the decoder accepts it and, by
+   C02_accepts_exactly, it is WellFormed for exactly the message the decoder returns *)
+Definition ex_wf_2019 : list N :=
+  [126; 2; 0; 96; 2; 1; 0; 0; 0; 0; 0; 1; 114; 153; 132; 23; 125; 2; 125; 1; 0; 3; 0; 1; 125; 2; 26; 125; 126].
+Example C02_wf_example_2019 : exists m, WellFormed ex_wf_2019 m /\ m_ver m = 1 /\ m_frag m = 1 /\ m_sum m = 3 /\
+  m_no m = 1 /\ m_serial m = 32381 /\ m_body m = [126; 26] /\ m_check m = 125.
+Proof.
+  destruct (decode ex_wf_2019) as [m| |] eqn:E; [|vm_compute in E; discriminate E ..].
+  exists m. split.
+  - apply (C02_accepts_exactly ex_wf_2019 m);
+      [unfold bytes, ex_wf_2019; repeat (constructor; [reflexivity|]); constructor
+      | unfold no_interior_delim; vm_compute; intuition discriminate | exact E].
+  - vm_compute in E. injection E as <-. repeat split; reflexivity.
+Qed.
+
+(* and a string that is NOT well-formed for any message (same frame, one body byte changed: check code wrong) is
+   rejected with an error: the hypothesis of C02_rejects_rest is met by concrete non-trivial strings *)
+Example C02_rejected_example : exists e, decode
+  [126; 2; 0; 96; 2; 1; 0; 0; 0; 0; 0; 1; 114; 153; 132; 23; 125; 2; 125; 1; 0; 3; 0; 1; 125; 2; 27; 125; 126] = Err e.
+Proof. eexists. vm_compute. reflexivity. Qed.
